@@ -236,6 +236,11 @@ pub fn check_indep<S: Src + ?Sized>(img: &S, m: &Model, allow_gaps: bool, ctx: &
         Ok(p) => p,
         Err(e) => return Err(mm("C02/unparseable", format!("independent parser: {e}"))),
     };
+    check_indep_parsed(img, p, m, allow_gaps, ctx)
+}
+
+/// same, for an image whose end record was located by the caller (e.g. bytes survive after it)
+pub fn check_indep_parsed<S: Src + ?Sized>(img: &S, p: Parsed, m: &Model, allow_gaps: bool, ctx: &mut Ctx) -> Result<IndepOutcome, Mismatch> {
     if let Some(why) = indep::ambiguous(img, &p) {
         return Ok(IndepOutcome::Ambiguous(why));
     }
@@ -248,6 +253,11 @@ pub fn check_indep<S: Src + ?Sized>(img: &S, m: &Model, allow_gaps: bool, ctx: &
     }
     if p.z64.is_some() {
         ctx.probe("zip64_end_record_emitted");
+    }
+    if m.lenient {
+        // R6: after a failed call only the structure is judged
+        ctx.probe("lenient_structure_only");
+        return Ok(IndepOutcome::Ok(p));
     }
     if p.centrals.len() != m.entries.len() {
         return Err(mm("C02/entry-count", format!("independent parser sees {} entries, model has {}", p.centrals.len(), m.entries.len())));
